@@ -20,7 +20,7 @@ CHECKS = ('c06', 'c08')
 
 def budget(tier):
     if tier == 'quick':
-        return {'shards': 16, 'examples': 40, 'steps': 22, 'wall': 240}
+        return {'shards': 16, 'examples': 80, 'steps': 22, 'wall': 240}
     return {'shards': 16, 'examples': 3000, 'steps': 32, 'wall': 2400}
 
 
@@ -48,7 +48,7 @@ def config(draw):
 def machine(tier, ctx):
     import sys
     return hist.make_machine(sys.modules[__name__], tier, ctx, checks=CHECKS, encrypted=True, cfg_strategy=config(),
-                             weights=dict(snapshot=4, delete=1, clean=1, restore=1, list=2, concurrent=0, add_user=4,
+                             weights=dict(snapshot=4, delete=1, clean=2, restore=1, list=2, concurrent=0, add_user=4,
                                           cross=2, unlock_wrong=2))
 
 
